@@ -251,6 +251,23 @@ CHECKS["C06"] = dict(
          "automata with pipeline-shaped states and on real add_dfta_constraints outputs, and from_CFG on C01-family grammars."),
    note=TB + "Hypotheses: the automaton is a dict (distinct keys); each letter is used at one arity; states are built from Type objects, ints and tuples with (Type, payload) leaves; derivation counts are stated for well-ranked programs; a rank function witnesses acyclicity.  The code's work-list and stack orders are not modelled (a round-based closure with proved fuel is used); clean is modelled with explicit fuel; programs() after clean and 'read_product/minimise outputs have the shape predicate' are covered by the correspondence only.",
    design="5/C06")
+CHECKS["C05"] = dict(
+   technique="Coq proof of the sharpening model (cfg2dfta, tag/count/filter/process, add_dfta_constraints over the C07 automaton model, constraint parser) + extracted-model/implementation correspondence",
+   text=("Theorems (Props/C05.v, 17, closed under the global context, unbounded over every DSL/grammar setting, every token tree of any nesting, "
+         "every list of constraints with or without a sketch, every program): process attaches to every state the components [sat tok t] / "
+         "saturating counts and leaves acceptance unchanged (C05_process_state, C05_process_count, C05_process_top_sketch/_local); the sharpened "
+         "automaton accepts exactly base and every constraint at every occurrence of its head and the sketch at the root, for any dict-shaped base "
+         "automaton, discharged by the C07 reduce/product/minimise/map_states theorems (C05_sharpen_automaton); from a grammar this is exactly the "
+         "property when min_variable_depth = 0 and there are no forbidden patterns (C05_cfg2dfta, C05_sharpen), otherwise L(spec) is included in "
+         "L(automaton) which is included in L(spec over the relaxed grammar), strictly (C05_cfg2dfta_sandwich, C05_sharpen_sandwich, "
+         "C05_cfg2dfta_refuted: known finding c05_cfg2dfta_forgets_context); unsupported top-level tokens raise (C05_unsupported_topmost); the model "
+         "never runs out of fuel (C05_sharpen_text).  Parser: parse(show p) = documented meaning for every function pattern of any nesting, both "
+         "count spellings, sub-tree rules, complements and variables (C05_parser_roundtrip, _rule, _denotation, _unknown_symbol; "
+         "C05_parser_pinned_refuted for the silent drops fixed in /repo).  Each run compares the extracted model with parse_specification on 600 "
+         "strings and with add_dfta_constraints + DFTA.read + DFTAFilter on 120 generated grammar x constraint-set cases against every relaxed "
+         "well-typed term up to the depth bound plus too-deep, ill-typed and mutant terms; the repository's own test examples are in the corpus."),
+   note=TB + "Depth-bounded CFGs only; ASCII strings with single spaces.  Rule tables and 'added' are modelled as lists with keys proved distinct.  The number of components a pattern adds is computed from the pattern, not from a final state's tuple length (they agree whenever a final state exists; the base grammar is assumed non-empty).  Constraint order is modelled but not observable.  Nested patterns that repeat the head of an enclosing pattern follow the 'every occurrence' reading (the property leaves them open; test_multi_level_hard fails in the baseline for that reason).  ttcfg_constraints.py is not covered.",
+   design="5/C05")
 NOT_YET = {}
 def main():
     props = [json.loads(l) for l in open(os.path.join(V, "properties.jsonl"))]
